@@ -455,14 +455,16 @@ func check(r *fw.R, sz sizeSpec, g1, g2 xf, sh shapeSpec, st styleSpec) {
 			r.Violate("stroke-miterlimit", fmt.Sprintf("miter limit is %g, specified %g", lim, w.miter))
 			return
 		}
-		// dash pattern: the numbers of the document, in its order (no claim about their unit here)
+		// dash pattern: SVG gives the lengths in user units; canvas paints Style.Dashes x stroke
+		// width (ScaleDash in every renderer), so the painted lengths in mm are
+		// Dashes x StrokeWidth x scale of the matrix, which must be the specified lengths in mm
 		gotDash := op.Style.Dashes
 		same := len(gotDash) == len(w.dash)
 		for i := 0; same && i < len(gotDash); i++ {
-			same = math.Abs(gotDash[i]-w.dash[i]) <= 1e-9
+			same = math.Abs(gotDash[i]*gotW-w.dash[i]*scaleMM) <= 1e-6*math.Max(1, w.dash[i]*scaleMM)
 		}
-		if !same || (len(w.dash) > 0 && math.Abs(op.Style.DashOffset-w.dashOffset) > 1e-9) {
-			r.Violate("stroke-dasharray", fmt.Sprintf("dash pattern is %v offset %g, the document specifies %v offset %g%s", gotDash, op.Style.DashOffset, w.dash, w.dashOffset, tag))
+		if !same || (len(w.dash) > 0 && math.Abs(op.Style.DashOffset*gotW-w.dashOffset*scaleMM) > 1e-6*math.Max(1, w.dashOffset*scaleMM)) {
+			r.Violate("stroke-dasharray", fmt.Sprintf("dash pattern is %v offset %g (x stroke width %.6g mm), the document specifies %v offset %g user units (x %.6g mm)%s", gotDash, op.Style.DashOffset, gotW, w.dash, w.dashOffset, scaleMM, tag))
 			return
 		}
 	}
@@ -508,7 +510,7 @@ func families(tier string) []fw.Family {
 				return document(sizes[g[0]], xforms[g[1]], xforms[g[2]], shapes[g[3]], sts[g[4]])
 			}})
 	}
-	return fs
+	return append(fs, roundTripFamilies(tier)...)
 }
 
 // Prop is the C19 check.
